@@ -24,6 +24,11 @@ func (w *balWorld) balStep(rt *rapid.T, kinds []string) {
 	drawAddr := func(label string) []byte { return rapid.SampledFrom(pool).Draw(rt, label) }
 	// signer set for Alphabet-only methods: mostly the Alphabet, sometimes not.
 	alphaOrNot := func() []neotest.Signer {
+		if w.c.FormerAlphabet != nil && rapid.IntRange(0, 3).Draw(rt, "formerAlphabet") == 0 {
+			// after a re-election of the committee the account that used to be the Alphabet is nobody
+			h.Mark("alphabet-method-by-the-former-alphabet")
+			return []neotest.Signer{w.c.FormerAlphabet}
+		}
 		if rapid.IntRange(0, 9).Draw(rt, "noAlpha") == 0 {
 			h.Mark("alphabet-method-without-alphabet")
 			var cand []neotest.Signer
@@ -176,6 +181,19 @@ func (w *balWorld) balStep(rt *rapid.T, kinds []string) {
 			h.Mark("ok-change")
 			h.Mark("unlock")
 		}
+	case "reelect":
+		// the chain votes in a wholly new committee (once per history): from the next block on the Alphabet is the new
+		// committee's 2n/3+1 account, the old one has no say
+		if w.c.FormerAlphabet != nil {
+			return
+		}
+		w.c.Reelect("bal")
+		w.names[w.c.FormerAlphabet.ScriptHash()] = "FormerAlphabet"
+		w.names[w.c.FormerCommittee.ScriptHash()] = "FormerMajority"
+		w.names[w.c.Alphabet.ScriptHash()] = "Alphabet"
+		w.names[w.c.Committee.ScriptHash()] = "Majority"
+		h.Op("the committee is re-elected (NEO votes): new Alphabet account %s", w.c.Alphabet.ScriptHash().StringLE()[:6])
+		h.Mark("committee-re-elected")
 	case "tick":
 		e := w.epoch + int64(rapid.IntRange(0, 3).Draw(rt, "epochDelta"))
 		op.amount, op.signers = bi(0), alphaOrNot()
